@@ -31,6 +31,8 @@ def fpi (s : Stack) : List (Tid × TaskSt) × List (Nat × Nat) × Nat × Option
 @[simp] theorem fpi_with_storeLog (s : Stack) (x : List (Bool × SvcKey × Addr)) : fpi { s with storeLog := x } = fpi s := rfl
 @[simp] theorem fpi_with_refreshLog (s : Stack) (x : List (Addr × SvcKey × Nat × Nat)) : fpi { s with refreshLog := x } = fpi s := rfl
 @[simp] theorem fpi_with_armLog (s : Stack) (x : List (Cb × Nat × Nat)) : fpi { s with armLog := x } = fpi s := rfl
+@[simp] theorem fpi_with_findMarks (s : Stack) (x : List (Nat × Nat)) : fpi { s with findMarks := x } = fpi s := rfl
+@[simp] theorem fpi_markFind (s : Stack) (n : Nat) : fpi (s.markFind n) = fpi s := rfl
 @[simp] theorem fpi_with_offLog (s : Stack) (x : List (Nat × OEv × Nat)) : fpi { s with offLog := x } = fpi s := rfl
 @[simp] theorem fpi_logOffer (s : Stack) (i : Nat) (e : OEv) : fpi (s.logOffer i e) = fpi s := rfl
 @[simp] theorem fpi_with_subMarks (s : Stack) (x : List (Option Nat × Nat)) : fpi { s with subMarks := x } = fpi s := rfl
